@@ -31,10 +31,16 @@ PROPS = {
                       "returns exactly sp_parse(line) (never panics: every unwrap, str slice boundary, index and "
                       "arithmetic operation in it and its callees is a discharged obligation), filepath_to_string "
                       "returns the documented escaping, and sp_parse(sp_line(path, hash, form, eol)) == (path, hash) "
-                      "for both output forms, escaped or not, LF or CRLF",
+                      "for both output forms, escaped or not, LF or CRLF; and the printing side: for every path and "
+                      "every Args not in --raw / --no-names mode, a successful hash_one_input appends to stdout exactly "
+                      "sp_line(lossy path, hash bytes, --tag?, LF) -- the escape marker first iff filepath_to_string "
+                      "says escaped, in BOTH forms -- which for a 32-byte hash and a checkable path parses back "
+                      "(sp_parse) to that path and hash; a failed call prints nothing",
         "level_note": "trusted: Verus+z3, the extraction rules (R2, R12, R17, R18, R19d), the assumed contracts of the "
-                      "std str/String/Path methods listed under assumptions, the model of blake3::Hash::from; the "
-                      "println!/print! formats of hash_one_input are transcribed as sp_line, not extracted",
+                      "std str/String/Path methods listed under assumptions, the model of blake3::Hash::from; for the "
+                      "printing side rule R21 (print!/println! with a literal format string -> writes to a ghost stdout "
+                      "log threaded through hash_one_input / write_hex_output / write_raw_output) and the assumed "
+                      "contracts of hash_path, write_raw_output, OutputReader::fill, hex::encode, Display of String/&str",
         "units": {"quick": [v("b3sum")], "thorough": []},
         "cone": [r"^crate::(parse_check_line|unescape|hex_half_byte|check_for_invalid_characters|"
                  r"split_untagged_check_line|split_tagged_check_line|filepath_to_string|hash_one_input|write_hex_output|"
@@ -58,10 +64,31 @@ PROPS = {
                        "escape, empty path, NUL or U+FFFD give None), lemma_escape_is_replace3 (filepath_to_string's "
                        "three chained replace calls are the per-char escaping), lemma_roundtrip (every printed line "
                        "parses back to the same path and hash) and lemma_no_confusion (two different paths never "
-                       "parse to the same path).",
+                       "parse to the same path). The printing side is under contract too: rule R21 turns every "
+                       "print!/println! of the extracted hash_one_input and write_hex_output into writes to a ghost "
+                       "stdout log (`print!(\"BLAKE3 ({}) = \", s)` -> write \"BLAKE3 (\", write Display(s), write \") = \"; "
+                       "println! appends \"\\n\"), in program order, so the ORDER of the statements of hash_one_input is "
+                       "what is verified. write_hex_output (real body, loop invariant over the XOF stream model of C03) "
+                       "appends sp_hex_encode of the next --length stream bytes; this includes the obligation that "
+                       "`&hex_str[..2 * take_bytes]` cuts the hex String at a char boundary. hash_one_input (real body) "
+                       "has the postcondition sp_prints_line(old stdout, new stdout, sp_path_lossy(path), h, args.tag) for "
+                       "some h of --length bytes whenever it returns Ok outside --raw / --no-names: new stdout == old "
+                       "stdout + sp_line(path, h, tag, LF) where sp_line starts with the backslash marker iff "
+                       "sp_needs_escape(path) in the plain AND the --tag form, and (via lemma_roundtrip, called in the "
+                       "body's proof) sp_parse of that line is (path, h) when h has 32 bytes and the path is non-empty "
+                       "without NUL / U+FFFD; --no-names prints the hex and LF only; Err leaves stdout unchanged. "
+                       "Args::raw/tag/no_names/len are verified getters of the real struct Inner.",
         "uncovered": [
-            "hash_one_input's print!/println! calls and write_hex_output are IO and not extracted: that the printed line "
-            "is sp_line(filepath_to_string(path), hex(hash), tag) is a transcription of main.rs:424-439 read by eye",
+            "the printed hash is 'the next --length bytes of the OutputReader hash_path returned' (h is existentially "
+            "quantified in hash_one_input's postcondition): that this stream is the BLAKE3 hash of the file's contents is "
+            "C01/C02/C03/C11 on the blake3 crate plus the assumed contract of hash_path, not decided here",
+            "hash_one_input is proved under `seek + length + 64 <= u64::MAX` (write_hex_output always fills whole 64-byte "
+            "blocks, so closer to the end of the stream it would leave the domain of OutputReader::fill's contract); the "
+            "default --seek 0 --length 32 is inside",
+            "--raw output (bytes, not text) is not described; b3sum prints LF only, so CRLF-terminated lines are covered by "
+            "lemma_roundtrip over the specification (crlf = true), not by the print contract",
+            "stdout itself (buffering, flush, a closed pipe -- print! panics on a write error), the loop in main that "
+            "calls hash_one_input per path and the eprintln! diagnostics are outside the unit",
             "`OsStr -> lossy String` (Path::to_string_lossy) and `String -> PathBuf` are uninterpreted (sp_path_lossy, "
             "sp_pathbuf_str): 'paths that are not valid Unicode are rejected at check time' is decided only as 'a "
             "path string containing U+FFFD is rejected', relying on std's documented lossy conversion",
@@ -82,6 +109,22 @@ PROPS = {
             "the real crate); blake3::OUT_LEN == 32",
             "PathBuf::from(String) keeps the string (sp_pathbuf_str); Path::to_string_lossy yields sp_path_lossy(path); "
             "Cow<str>::to_string copies it",
+            "R21 (extraction rule, unit option print_model = [hash_one_input, write_hex_output, write_raw_output]): these "
+            "free functions get a first parameter `vf_out: &mut VfStdout` (a ghost Seq<char> log), calls of them pass it "
+            "on, `print!(\"lit {} lit\", a)` becomes vf_stdout_write(vf_out, \"lit \"); vf_stdout_write_disp(vf_out, &(a)); "
+            "vf_stdout_write(vf_out, \" lit\") and println! additionally writes \"\\n\"; only `{}` placeholders are inside "
+            "the rule (anything else is an extraction error = undecided). ASSUMED: std's print!/println! write exactly "
+            "these pieces in this order to the process's stdout",
+            "vf_stdout_write appends the literal; vf_stdout_write_disp appends Display of the argument, where Display of "
+            "String / str / &T is the string itself (std: `f.pad(s)` with no width / precision under `{}`)",
+            "hash_path (trusted): a returned OutputReader is positioned at --seek; write_raw_output (trusted): no claim",
+            "blake3::OutputReader is modelled by a stream identity and a position; `fill(buf)` has the contract the xof "
+            "unit VERIFIES on the real crate for C03 (requires pos + len <= u64::MAX; buf := the next len stream bytes, "
+            "pos += len, same stream); blake3::Hasher is an opaque type (only stored in Args); blake3::BLOCK_LEN == 64",
+            "hex::encode(&[u8]) returns sp_hex_encode of the bytes (two lowercase hex digits per byte, high nibble first)",
+            "@subst in write_hex_output: `&hex_str[..n]` on a String is resolved to `&hex_str.as_str()[..n]` (String's "
+            "Index impl forwards to str's; vstd specifies only the latter)",
+            "the structs Inner / Args are the real ones with clap's derive attributes dropped (attributes are not code); "
             "clap argument parsing, main, file and terminal IO are outside the unit",
             EXTRACTION,
         ],
